@@ -14,9 +14,16 @@ pub enum Fault {
     None,
     Short(usize),
     Interrupted,
-    Fail,
+    /// the call fails with an I/O error; the payload selects the `ErrorKind` (`f` = Other, `f1`… = FAIL_KINDS[n]):
+    /// every kind other than `Interrupted` is a failure of the call, whatever a caller may think is "transient"
+    Fail(u8),
     Eof,
 }
+
+pub const FAIL_KINDS: [ErrorKind; 8] = [
+    ErrorKind::Other, ErrorKind::WouldBlock, ErrorKind::TimedOut, ErrorKind::Unsupported,
+    ErrorKind::UnexpectedEof, ErrorKind::InvalidData, ErrorKind::BrokenPipe, ErrorKind::PermissionDenied,
+];
 
 /// a schedule may start with `p<N>`: the reader is handed over with its cursor at `N` (any `Read + Seek` the caller
 /// supplies may have been read from before); the rest is one entry per I/O call
@@ -36,8 +43,9 @@ pub fn parse_sched(s: &str) -> Vec<Fault> {
     s.split(',')
         .map(|t| match t {
             "i" => Fault::Interrupted,
-            "f" => Fault::Fail,
+            "f" => Fault::Fail(0),
             "e" => Fault::Eof,
+            _ if t.starts_with('f') => Fault::Fail(t[1..].parse::<u8>().unwrap_or(0) % FAIL_KINDS.len() as u8),
             _ if t.starts_with('s') => Fault::Short(t[1..].parse().unwrap_or(0)),
             _ => Fault::None,
         })
@@ -56,6 +64,9 @@ pub struct Log {
     pub events: Vec<Ev>,
     pub calls: usize,
     pub faults_hit: usize,
+    /// I/O calls that *failed*: a seek or read returning an error other than `Interrupted`, or a read returning
+    /// `Ok(0)` into a non-empty buffer (premature end of stream)
+    pub hard_hits: usize,
 }
 
 /// Any legal `Read + Seek`: each call consumes one schedule entry.
@@ -86,14 +97,19 @@ impl Read for FaultyReader {
         let k = match f {
             Fault::None => want.min(avail),
             Fault::Short(k) => want.min(avail).min(k.max(1)),
-            Fault::Eof => 0,
+            Fault::Eof => {
+                if want > 0 { self.log.borrow_mut().hard_hits += 1; }
+                0
+            }
             Fault::Interrupted => {
                 self.log.borrow_mut().events.push(Ev::Read(want, 0));
                 return Err(Error::new(ErrorKind::Interrupted, "injected"));
             }
-            Fault::Fail => {
-                self.log.borrow_mut().events.push(Ev::Read(want, 0));
-                return Err(Error::new(ErrorKind::Other, "injected"));
+            Fault::Fail(kd) => {
+                let mut l = self.log.borrow_mut();
+                l.events.push(Ev::Read(want, 0));
+                l.hard_hits += 1;
+                return Err(Error::new(FAIL_KINDS[kd as usize % FAIL_KINDS.len()], "injected"));
             }
         };
         let p = self.pos as usize;
@@ -112,8 +128,9 @@ impl Seek for FaultyReader {
             SeekFrom::Start(p) => self.log.borrow_mut().events.push(Ev::Seek(p)),
             SeekFrom::Current(_) => {}
         }
-        if matches!(f, Fault::Fail) {
-            return Err(Error::new(ErrorKind::Other, "injected"));
+        if let Fault::Fail(kd) = f {
+            self.log.borrow_mut().hard_hits += 1;
+            return Err(Error::new(FAIL_KINDS[kd as usize % FAIL_KINDS.len()], "injected"));
         }
         let np = match to {
             SeekFrom::End(d) => (self.content.len() as i64 + d) as u64,
@@ -348,6 +365,8 @@ pub struct StreamRun {
     pub allocs: u64,
     pub io_calls: usize,
     pub faults_hit: usize,
+    /// the first operation (`open` or a query) during which an I/O call failed and which nevertheless reported no error
+    pub ok_despite_failed_io: Option<String>,
 }
 
 pub fn run_stream_spec<E: EndianParse>(sched: &str, ops: &str, file: &[u8]) -> StreamRun {
@@ -356,9 +375,14 @@ pub fn run_stream_spec<E: EndianParse>(sched: &str, ops: &str, file: &[u8]) -> S
     let before = crate::alloc_count::arm();
     let opened = ElfStream::<E, _>::open_stream(rdr);
     let mut parts = vec![];
+    let mut ok_despite: Option<String> = None;
+    let hard_open = log.borrow().hard_hits;
     match opened {
         Ok(mut s) => {
             let _ = crate::alloc_count::disarm(before);
+            if hard_open > 0 {
+                ok_despite = Some(format!("open_stream returned Ok although {} of its I/O calls failed", hard_open));
+            }
             parts.push(format!(
                 "open=ok {} shdrs={} phdrs={}",
                 show_ehdr(&s.ehdr),
@@ -370,8 +394,15 @@ pub fn run_stream_spec<E: EndianParse>(sched: &str, ops: &str, file: &[u8]) -> S
                     // arm only around the call under test: re-arm per op, formatting happens inside but
                     // buffer allocations dominate; the size bound (not the count) is what C08 uses
                     let b = crate::alloc_count::arm_keep_max();
+                    let h0 = log.borrow().hard_hits;
                     let r = stream_op(&mut s, q, file);
                     let _ = crate::alloc_count::disarm(b);
+                    let h1 = log.borrow().hard_hits;
+                    // every query of the transcript is a handful of accessor calls; a failed I/O call inside one of
+                    // them must make that call return Err, so at least one `err` appears in the query's reply
+                    if h1 > h0 && ok_despite.is_none() && !r.contains("err ") && !r.contains("=oob") && r != "bad-query" && r != "N=not-utf8" {
+                        ok_despite = Some(format!("`{}` reported no error although {} I/O call(s) failed during it: `{}`", q, h1 - h0, &r[..r.len().min(160)]));
+                    }
                     parts.push(r);
                 }
             }
@@ -389,6 +420,7 @@ pub fn run_stream_spec<E: EndianParse>(sched: &str, ops: &str, file: &[u8]) -> S
         allocs: 0,
         io_calls: l.calls,
         faults_hit: l.faults_hit,
+        ok_despite_failed_io: ok_despite,
     }
 }
 
